@@ -58,6 +58,19 @@ func nextID() string {
 // exchange plays one script against the client and runs the follow-up request.
 // waitClose: before the follow-up give the client the chance to notice bytes it did not
 // ask for (the peer observes the first connection ending), bounded.
+// exchangeSegs: the complete wire in one write (split 0) or two (split at p); the peer keeps
+// the connection open.
+func exchangeSegs(c *req.Client, srv *wire.Server, st *wire.Stream, w []byte, p int, auto bool) h1Seen {
+	segsNext = nil
+	if p > 0 {
+		segsNext = []int{p}
+	}
+	defer func() { segsNext = nil }()
+	return exchange(c, srv, st, w, -1, auto, false)
+}
+
+var segsNext []int // write boundaries of the next script (set by exchangeSegs; the h1 jobs that run in parallel leave it nil)
+
 func exchange(c *req.Client, srv *wire.Server, st *wire.Stream, w []byte, k int, auto bool, waitClose bool) (o h1Seen) {
 	o.K = k
 	o.Mode = "manual"
@@ -65,7 +78,7 @@ func exchange(c *req.Client, srv *wire.Server, st *wire.Stream, w []byte, k int,
 		o.Mode = "auto"
 	}
 	id := nextID()
-	sc := &wire.Script{Wire: w, CutAt: k, Follow: []byte("follow-up body of " + id)}
+	sc := &wire.Script{Wire: w, CutAt: k, Segs: segsNext, Follow: []byte("follow-up body of " + id)}
 	srv.Register(id, sc)
 	defer srv.Unregister(id)
 	done := make(chan struct{})
@@ -509,6 +522,7 @@ func runH1(r *hk.Run, rng *hk.Rand) error {
 		}
 	}
 	runH1ClLines(r, rng.Fork(), srv)
+	runH1ChunkFooters(r, rng.Fork(), srv)
 	return runH1Full(r, rng, srv)
 }
 
